@@ -22,6 +22,11 @@ func modelRandFill(b []byte)                                     { panic("engine
 func IdealEncode(v any) []byte              { panic("engine only") }
 func IdealDecode(data []byte, dst any) error { panic("engine only") }
 
+// HonestKey declares that the adversary does not hold the private key of pub: under the symbolic
+// executor only signatures produced by ed25519.Sign during the run verify under it
+// (unforgeability, DESIGN §2.7). Natively a no-op: real signatures are used.
+func HonestKey(pub []byte) {}
+
 // SetFile makes path readable with the given content (engine: file table; natively a real file).
 func SetFile(path string, content []byte) {
 	if err := os.WriteFile(path, content, 0o600); err != nil {
